@@ -17,6 +17,15 @@ pub fn size_for(seed: u64, tag: &str, doc: &str, vi: u64, tier: Tier) -> usize {
         5 => 1100,
         // values whose stream length is fitted to a boundary (only `Padded<..>` documents can be fitted)
         6..=17 => 1 + r.below(4) as usize,
+        // one large payload (hundreds of KiB: larger than any I/O chunk a hardened reader/writer might use)
+        // for a few sequence documents; fault positions of such streams are sampled (see `positions`)
+        3 => {
+            if BIG_DOCS.contains(&doc) {
+                40_000
+            } else {
+                3 + r.below(8) as usize
+            }
+        }
         _ => {
             let big = match tier {
                 Tier::Quick => false,
@@ -43,6 +52,8 @@ pub fn fit_for(vi: u64) -> Option<(usize, isize)> {
     let delta = [-1isize, 0, 1][k % 3];
     Some((modulus, delta))
 }
+
+pub const BIG_DOCS: &[&str] = &["VecU8", "VecU64", "VecString", "Str", "DeepA", "PaddedVecU64", "SrcSliceU32", "SrcIterU64", "BoxU32"];
 
 pub fn fx(s: &str) -> u64 {
     crate::rng::Fnv::new().str(s).get()
@@ -125,8 +136,11 @@ pub fn max_unit(schema: &Schema) -> usize {
 use crate::place::Arena;
 use epserde::deser::Deserialize;
 
+/// Usable bytes of the placement arena (per thread).
+pub const ARENA_CAP: usize = 1 << 21;
+
 thread_local! {
-    static ARENA: std::cell::RefCell<Arena> = std::cell::RefCell::new(Arena::new(1 << 17));
+    static ARENA: std::cell::RefCell<Arena> = std::cell::RefCell::new(Arena::new(ARENA_CAP));
 }
 pub fn with_arena<R>(f: impl FnOnce(&mut Arena) -> R) -> R {
     ARENA.with(|a| f(&mut a.borrow_mut()))
@@ -139,45 +153,106 @@ pub struct PrepDoc<D: Doc> {
     /// fault-free stream
     pub b: Vec<u8>,
     pub schema: Schema,
-    /// canonical value of the unfragmented full-copy read of `b` (the reference of every differential oracle)
+    /// canonical value of the unfragmented full-copy read of `b` (the reference of every differential oracle;
+    /// empty when `canon_full` is None)
     pub canon: Vec<u8>,
+    /// the same, None if the fault-free full-copy read of `b` fails
+    pub canon_full: Option<Vec<u8>>,
+    /// canonical value of the ε-copy read of `b` at a page-aligned address, None if that read fails
+    pub canon_eps: Option<Vec<u8>>,
 }
 
-/// `None` when any fault-free control (serialize, full-copy read, ε-copy read at an aligned
-/// address, agreement of the two) fails: those are failures of unclaimed round-trip properties.
-pub fn prep_doc<D: Doc>(seed: u64, tag: &str, vi: u64, tier: Tier) -> Option<PrepDoc<D>> {
+/// Which fault-free references a check cannot do without.
+#[derive(Clone, Copy, PartialEq, Eq)]
+pub enum Need {
+    /// only the stream and its schema (C11, C12, C10 judge each path against its own reference, if any)
+    Stream,
+    /// the unfragmented full-copy read (C14)
+    Full,
+    /// both reads, agreeing
+    Both,
+}
+
+/// `None` when a fault-free control the check *needs* fails (always: serialization; `Need::Full`: the
+/// full-copy read; `Need::Both`: both reads and their agreement). Those are failures of unclaimed
+/// round-trip properties; what a check can judge without a reference it still judges.
+pub fn prep_doc_need<D: Doc>(seed: u64, tag: &str, vi: u64, tier: Tier, need: Need) -> Option<PrepDoc<D>> {
     let (v, size) = gen_value::<D>(seed, tag, vi, tier);
     let mut b: Vec<u8> = Vec::new();
     let schema = match catch(|| v.serialize_with_schema(&mut b)) {
         Ok(Ok(s)) => s,
         _ => return None,
     };
-    if b.len() + 256 > (1 << 17) - 4096 {
+    if b.len() + 8192 > ARENA_CAP {
         return None;
     }
-    let canon = match catch(|| D::deserialize_full(&mut std::io::Cursor::new(&b[..]))) {
+    let canon_full = match catch(|| D::deserialize_full(&mut std::io::Cursor::new(&b[..]))) {
         Ok(Ok(val)) => {
             let mut c = Vec::new();
             val.canon(&mut c);
-            c
+            Some(c)
         }
-        _ => return None,
+        _ => None,
     };
-    let eps_ok = with_arena(|a| {
+    let canon_eps = with_arena(|a| {
         let s = a.place(&b, 0);
         match catch(|| D::deserialize_eps(s)) {
             Ok(Ok(e)) => {
                 let mut c = Vec::new();
                 D::canon_eps(&e, &mut c);
-                c == canon
+                Some(c)
             }
-            _ => false,
+            _ => None,
         }
     });
-    if !eps_ok {
-        return None;
+    match need {
+        Need::Stream => {}
+        Need::Full => {
+            canon_full.as_ref()?;
+        }
+        Need::Both => {
+            if canon_full.is_none() || canon_full != canon_eps {
+                return None;
+            }
+        }
     }
-    Some(PrepDoc { v, vi, size, b, schema, canon })
+    let canon = canon_full.clone().unwrap_or_default();
+    Some(PrepDoc { v, vi, size, b, schema, canon, canon_full, canon_eps })
+}
+
+pub fn prep_doc<D: Doc>(seed: u64, tag: &str, vi: u64, tier: Tier) -> Option<PrepDoc<D>> {
+    prep_doc_need::<D>(seed, tag, vi, tier, Need::Both)
+}
+
+/// Fault positions for a stream of `len` bytes (k in 0..len, or 0..=len with `incl_end`): all of them for
+/// streams up to 24 KiB; for larger streams the boundaries where chunked I/O could go wrong (multiples of
+/// 4 KiB, 8 KiB, 64 KiB, each -1/0/+1), the first and last 64 positions, and 128 seeded ones.
+pub fn positions(len: usize, incl_end: bool, r: &mut Rng) -> Vec<usize> {
+    let end = if incl_end { len + 1 } else { len };
+    if len <= 24 * 1024 {
+        return (0..end).collect();
+    }
+    let mut ks: Vec<usize> = Vec::new();
+    ks.extend(0..64.min(end));
+    ks.extend(end.saturating_sub(64)..end);
+    for step in [4096usize, 8192, 65536] {
+        let mut m = step;
+        while m < end + 1 {
+            for d in [-1i64, 0, 1] {
+                let k = m as i64 + d;
+                if k >= 0 && (k as usize) < end {
+                    ks.push(k as usize);
+                }
+            }
+            m += step;
+        }
+    }
+    for _ in 0..128 {
+        ks.push(r.below(end as u64) as usize);
+    }
+    ks.sort_unstable();
+    ks.dedup();
+    ks
 }
 
 /// Classes of schema rows, for "where did the fault land" probes: (offset, size, class)
